@@ -39,10 +39,17 @@ func (c *ctx) ref() {
 		}
 		dd := c.p.Scen.Docs[di]
 		dd.Normalize()
+		n0 := len(c.out)
+		c.refConn(dd, i)
 		if di > 0 {
 			c.r.Probes["conn-after-reload"]++
+			// a connection admitted after a reload is judged on the reloaded document: any
+			// deviation means the reload is not equivalent to starting with that document
+			for _, v := range c.out[n0:] {
+				c.vs("C16/reloaded-config-not-in-force", v.Class, "connection %d arrived after document %d was loaded, yet: %s", i+1, di, v.Detail)
+				break
+			}
 		}
-		c.refConn(dd, i)
 	}
 	c.oneReplyPerRequest()
 	c.secretsInLogs(d)
